@@ -181,6 +181,10 @@ def gen_ffi_op(r, n, tier):
             yield f"ffi op wC write {r.pick([r.below(100), r.below(110)])} {_bits(r, r.rng(1, 40))}"
         else:
             yield f"ffi op wR write {r.pick([r.below(100), r.below(110)])} {_regs(r, r.rng(1, 20))}"
+    # caller-owned objects re-used across calls; control functions and constructors (part of C18)
+    extra = 30 if tier != "thorough" else 300
+    yield from gen_ffi_reuse(r, extra, tier)
+    yield from gen_ffi_ctl(r, extra, tier)
 
 
 # ---------------------------------------------------------------- ffi db
@@ -235,6 +239,8 @@ def gen_ffi_db(r, n, tier):
         idx = idx_small if r.chance(3, 4) else idx_wide
         k = r.rng(1, 30 if tier == "thorough" else 16)
         yield "ffi db " + ",".join(_db_op(r, idx) for _ in range(k))
+    # successive transactions on one database, one callback value for several transactions (C19)
+    yield from gen_ffi_reuse_db(r, 30 if tier != "thorough" else 600, tier)
 
 
 def gen_ffi_atomic(r, n, tier):
@@ -244,6 +250,140 @@ def gen_ffi_atomic(r, n, tier):
             yield f"ffi atomic {regs} {ntx} {reads} {threads}"
     else:
         yield "ffi atomic 100 300 150 3"
+
+
+# ---------------------------------------------------------------- ffi reuse / ffi ctl
+
+def _hx(s):
+    return hx(s.encode("utf-8"))
+
+
+def gen_ffi_reuse(r, n, tier):
+    """caller-owned objects handed to several calls (C18): one list object written two or three
+    times, one callback struct / RequestParam for several calls, one filter object for two servers,
+    one device map for three servers.  `n` = number of random cases."""
+    # one BitList / RegisterList, several writes: every length 1..3 x start patterns (disjoint,
+    # repeated, overlapping, failing first / in the middle / last, address overflow in between)
+    starts = ["2,6", "2,6,10", "5,5", "5,6", "6,5", "97,2", "2,99,2", "65535,3", "3,65535,3", "0,50,96", "10,2", "98,99,100"]
+    for vals in ("51966/48879", "7", "1/2/3/4", "0/65535/0"):
+        for st in starts:
+            yield f"ffi reuse list wR {vals} {st}"
+    for vals in ("101", "1", "0110", "00"):
+        for st in starts:
+            yield f"ffi reuse list wC {vals} {st}"
+    yield "ffi reuse list wR - 3,4"
+    yield "ffi reuse list wC - 3,4"
+    yield "ffi reuse list wR n 3"          # malformed: both sides answer bad-case
+    # one callback struct value + one RequestParam value for several calls
+    for op in OPS:
+        for variants in ("dd", "ddd", "dzd", "dnd", "zdn", "nnd"):
+            yield f"ffi reuse cb {op} {variants}"
+    # one filter object, two servers, an address added in between
+    for f in ("any", _hx("127.0.0.1"), _hx("127.0.0.*"), _hx("127.0.0.9")):
+        for add in ("-", _hx("127.0.0.2"), _hx("127.0.0.1"), _hx("x")):
+            for peer in ("127.0.0.1", "127.0.0.2"):
+                yield f"ffi reuse filter {f} {add} {peer}"
+    yield f"ffi reuse filter {_hx('bad')} - 127.0.0.1"
+    # one device map, three servers
+    for units, unit in (("1,2", 1), ("1,2", 2), ("1,2", 3), ("1,2,1", 1), ("-", 1), ("7", 7), ("255,0", 0)):
+        yield f"ffi reuse map {units} {unit}"
+    for _ in range(n):
+        k = r.below(4)
+        if k == 0:
+            cnt = r.rng(1, 8)
+            st = ",".join(str(r.pick([r.below(90), r.below(90), r.rng(88, 104)])) for _ in range(r.rng(2, 4)))
+            yield f"ffi reuse list wR {_regs(r, cnt)} {st}"
+        elif k == 1:
+            cnt = r.rng(1, 12)
+            st = ",".join(str(r.pick([r.below(90), r.below(90), r.rng(88, 104)])) for _ in range(r.rng(2, 4)))
+            yield f"ffi reuse list wC {_bits(r, cnt)} {st}"
+        elif k == 2:
+            yield f"ffi reuse cb {r.pick(OPS)} " + "".join(r.pick("dddzn") for _ in range(r.rng(2, 6)))
+        else:
+            peer = r.pick(["127.0.0.1", "127.0.0.2", "127.1.2.3"])
+            f = ".".join(x if r.chance(1, 2) else "*" for x in peer.split("."))
+            add = r.pick(["-", _hx("127.0.0.1"), _hx("127.1.2.3"), _hx("::1")])
+            yield f"ffi reuse filter {_hx(r.pick([f, '127.0.0.1', '127.0.0.2']))} {add} {peer}"
+
+
+def gen_ffi_reuse_db(r, n, tier):
+    """C19: one database, successive transactions (`c` = transaction boundary); one
+    DatabaseCallback value for several transactions"""
+    ops4 = ["a2.1.7", "a2.1.8", "u2.1.9", "d2.1"]
+    for k in (2, 3):
+        for seq in itertools.product(ops4, repeat=k):
+            yield "ffi db " + ",c,".join(seq) + ",c,g2.1,r2.1.1"
+    yield "ffi db c"
+    yield "ffi db c,c,a0.1.1,c,c,g0.1,c"
+    yield "ffi db a3.2.5,c,r3.2.1,c,u3.2.6,c,r3.2.1,d3.2,c,r3.2.1"
+    for k in (0, 1, 2, 3, 10, 50):
+        for unit in (3, 4):
+            yield f"ffi reuse tx {k} {unit}"
+    yield "ffi reuse tx 2 1"
+    yield "ffi reuse tx 1 2"
+    yield "ffi reuse tx 3 9"
+    yield "ffi reuse tx 2 null"
+    yield "ffi reuse tx 0 null"
+    for _ in range(n):
+        idx = [0, 1, 2, 3]
+        k = r.rng(2, 12)
+        toks = []
+        for _ in range(k):
+            toks.append(_db_op(r, idx))
+            if r.chance(1, 2):
+                toks.append("c")
+        yield "ffi db " + ",".join(toks)
+
+
+def gen_ffi_ctl(r, n, tier):
+    """control functions and constructors that no other suite reaches (C18 / C19): decode levels,
+    enable / disable, serial and TLS constructors (error paths), device map, transactions on unknown
+    units, iterators, null objects.  `n` = number of random cases."""
+    for a, f, p in itertools.product(range(4), range(3), range(3)):
+        yield f"ffi ctl cdecode {a} {f} {p} world"
+        yield f"ffi ctl sdecode {a} {f} {p} world"
+    for a, f, p in ((0, 0, 0), (3, 2, 2)):
+        for t in ("tmp", "null", "dead"):
+            yield f"ffi ctl cdecode {a} {f} {p} {t}"
+        for t in ("null", "async"):
+            yield f"ffi ctl sdecode {a} {f} {p} {t}"
+    yield "ffi ctl cdecode 4 0 0 world"    # not a level: bad-case on both sides
+    for script in ("r", "er", "edr", "eder", "rerdrer", "dr", "ddr", "eer", "ededer", "null"):
+        yield f"ffi ctl endis {script}"
+    for what in ("missing", "nullrt"):
+        yield f"ffi ctl rtucli {what}"
+    for what in ("missing", "nullrt", "nullmap"):
+        yield f"ffi ctl rtusrv {what}"
+    cli = ["ok", "ca", "wilddns", "nopeer", "nolocal", "nokey", "keyiscert", "peeriskey", "canopeer", "baddns", "stardns",
+           "utf8peer", "utf8dns", "nullrt"]
+    for scen in cli:
+        yield f"ffi ctl tlscli {scen}"
+    srv = ["ok", "ca", "nopeer", "nolocal", "nokey", "keyiscert", "peeriskey", "canopeer", "utf8peer", "nullrt", "nullfilter",
+           "nullmap", "badip"]
+    for variant in ("tls", "tlsauth"):
+        for scen in srv:
+            yield f"ffi ctl tlssrv {variant} {scen}"
+    for scen in ("ok", "nullrt", "nullfilter", "nullmap", "badip", "inuse"):
+        yield f"ffi ctl tcpsrv {scen}"
+    for a, b in ((1, 1), (1, 2), (0, 0), (255, 255), (0, 255)):
+        yield f"ffi ctl mapdup {a} {b}"
+    yield "ffi ctl mapdup null"
+    for u in (1, 2, 3, 4, 0, 5, 9, 255, "null"):
+        yield f"ffi ctl txunit {u}"
+    for op in READS:
+        for s, c, take in ((0, 5, 3), (2, 3, 6), (2, 3, 0), (0, 1, 1), (99, 2, 3), (5, 0, 2), (0, 8, 8), (0, 8, 9), (99, 1, 2)):
+            yield f"ffi ctl iter {op} {s} {c} {take}"
+    yield "ffi ctl nullobj"
+    for _ in range(n):
+        k = r.below(3)
+        if k == 0:
+            yield "ffi ctl endis " + "".join(r.pick("eddrr") for _ in range(r.rng(1, 8)))
+        elif k == 1:
+            s = r.below(100)
+            c = r.rng(1, min(20, 100 - s))
+            yield f"ffi ctl iter {r.pick(READS)} {s} {c} {r.rng(0, c + 3)}"
+        else:
+            yield f"ffi ctl mapdup {r.below(256)} {r.below(256)}"
 
 
 # ---------------------------------------------------------------- ffi flt / fltadd / fnet
@@ -313,6 +453,9 @@ FFI_SUITES = {
     "ffi_op": gen_ffi_op,
     "ffi_db": gen_ffi_db,
     "ffi_atomic": gen_ffi_atomic,
+    "ffi_reuse": gen_ffi_reuse,
+    "ffi_reuse_db": gen_ffi_reuse_db,
+    "ffi_ctl": gen_ffi_ctl,
     "ffi_flt": gen_ffi_flt,
     "ffi_fnet": gen_ffi_fnet,
 }
